@@ -1016,7 +1016,13 @@ def slice_with_int_dask_array_on_axis(x, idx, axis):
     # e.g. chunks=(..., (5, 3, 4), ...) -> offset=[0, 5, 8]
     offset = np.roll(np.cumsum(asarray_safe(x.chunks[axis], like=x._meta)), 1)
     offset[0] = 0
-    offset = from_array(offset, chunks=1)
+    # Explicit name: an index array equal to the chunk offsets (the first
+    # element of every chunk) would otherwise get the same content-derived name
+    offset = from_array(
+        offset,
+        chunks=1,
+        name="slice-offsets-" + tokenize(offset, x.chunks[axis], axis),
+    )
     # Tamper with the declared chunks of offset to make blockwise align it with
     # x[axis]
     offset = Array(
